@@ -163,6 +163,12 @@ def run(prog, rep):
                 kinds.add("replace")
                 if rv != C(0):
                     ok, msg, where = False, "line %d: replacing an existing pair returns TRUE (the node count would grow although no key was added)" % line(stmt), line(stmt)
+                X = st.tags.get("found")
+                if X is not None:
+                    for fld, newv in (("key", keyp), ("value", valp)):
+                        mine = [s_ for s_ in st.tags.get("stores", ()) if s_[0] == ("fld", X, fld)]
+                        if len(mine) != 1 or mine[0][1] != newv:
+                            ok, msg, where = False, "line %d: inserting an equal key does not store the new %s into the found node: the map keeps the old %s of the pair" % (line(stmt), fld, fld), line(stmt)
         if not {"new", "replace"} <= kinds:
             ok, msg = False, msg or "insert lacks a %s path" % sorted({"new", "replace"} - kinds)
         rep.ob("C12.3", fn, "insert:result", ok, "TRUE exactly when a new node with the given pair is linked in; FALSE on replace and on allocation failure" if ok else msg, where)
